@@ -160,6 +160,8 @@ pub struct SendObs {
     pub dev_before: DevSnap,
     /// Err(description) if the public Tokenizer iterator failed to make progress on these bytes
     pub lexer_progress: core::result::Result<usize, String>,
+    /// first lexical error in the message (unit index, error), judged by the public tokenizer
+    pub lex_err: Option<(usize, ErrObs)>,
     pub plans_given: usize,
 }
 
@@ -395,6 +397,7 @@ impl World {
             self.outq[ctl].extend_from_slice(&out);
         }
         let lexer_progress = lexer_progress(&bytes);
+        let lex_err = first_lexical_error(&bytes);
         SendObs {
             bytes,
             mav,
@@ -410,6 +413,7 @@ impl World {
             dev: self.snap(),
             dev_before,
             lexer_progress,
+            lex_err,
             plans_given,
         }
     }
@@ -449,6 +453,29 @@ impl World {
 
 /// Drive the public Tokenizer iterator over `bytes`: every successful token must consume at
 /// least one byte, and at most len+1 tokens can be produced.
+/// The first error the public tokenizer reports for these bytes, with the index of the message
+/// unit it is in (= number of unit separators lexed before it). None: lexically clean (or the
+/// tokenizer panicked, which `lexer_progress` reports).
+pub fn first_lexical_error(bytes: &[u8]) -> Option<(usize, ErrObs)> {
+    catch_unwind(AssertUnwindSafe(|| {
+        let mut units = 0usize;
+        let mut n = 0usize;
+        for t in Tokenizer::new(bytes) {
+            match t {
+                Ok(scpi::parser::tokenizer::Token::ProgramMessageUnitSeparator) => units += 1,
+                Ok(_) => {}
+                Err(e) => return Some((units, obs_err(&Error::new(e)))),
+            }
+            n += 1;
+            if n > bytes.len() + 1 {
+                return None;
+            }
+        }
+        None
+    }))
+    .unwrap_or(None)
+}
+
 pub fn lexer_progress(bytes: &[u8]) -> core::result::Result<usize, String> {
     let r = catch_unwind(AssertUnwindSafe(|| {
         let mut t = Tokenizer::new(bytes);
